@@ -12,7 +12,8 @@
 //           B bit-aligned reference (bit offset 3), D read-only bit-aligned reference)
 //   acc <cs> <T> <m> <l> v0 ..
 //        -> at=<at_c<K>> sem=<semantic_at_c<S>> col=<get_color by colour-space order> idx=<operator[K] | -> off=<position of at_c<K>:
-//           byte offset (V R), plane number (P), first bit inside the pixel (K B)>
+//           byte offset (V R), plane number (P), first bit inside the pixel (K B)>; model I = planar_pixel_iterator: at from *it,
+//           sem from it[1] (second pixel = first + 1), col from *planar_pixel_iterator(&*it), off = element index 2K+1 of it[1]'s channels
 //   alg <cs> <T> <l1> <l2> v0 .. | w0 ..      (value pixels p1: layout l1 values v, p2: layout l2 values w)
 //        -> fill= gen= fe1= fe2= fe3= tr1= tr2= min= max= minat= maxat= eq= cp=
 #include <boost/gil.hpp>
@@ -139,6 +140,20 @@ template <typename T, typename L> static string acc_h(char m, std::vector<double
         for (int i = 0; i < n; ++i) ix.push_back((double)p[i]);
         off = byte_offsets_(p, idx{});
         return fmt(p, ix, off);
+    }
+    if (m == 'I') {                       // planar pixel iterator: deref(), operator[] (offset constructor), iterator from &reference (pointer constructor)
+        if constexpr (n >= 2 && is_identity<L>()) {
+            using it_t = gil::planar_pixel_iterator<T*, cs_t>;
+            T pl[n][2]; T* ptrs[n];
+            for (int i = 0; i < n; ++i) { pl[i][0] = (T)v[i]; pl[i][1] = (T)(v[i] + 1); ptrs[i] = &pl[i][0]; }
+            it_t it = make_planar<it_t>(ptrs, std::integral_constant<int, n>{});
+            auto r0 = *it; auto r1 = it[1];
+            it_t it2(&r0); auto r2 = *it2;
+            std::vector<double> ix, off;
+            for (int i = 0; i < n; ++i) ix.push_back((double)r0[i]);
+            off = plane_numbers_(r1, &pl[0][0], idx{});
+            return "at=" + show(phys(r0)) + " sem=" + show(sem_(r1, idx{})) + " col=" + show(col_(r2, mp11::mp_rename<cs_t, mp11::mp_list>{})) + " idx=" + show(ix) + " off=" + show(off);
+        }
     }
     if (m == 'P') {
         if constexpr (n >= 2 && is_identity<L>()) {
